@@ -206,20 +206,23 @@ class FixedMarginBusiness(Sector):
             self.AddVariable('DEM_' + self.LabourInputName, 'Demand for labour',
                              '%0.3f * %s' % (wage_share, market_sup_good))
             self.SetEquationRightHandSide('PROF', '%0.3f * %s' % (self.ProfitMargin, market_sup_good))
-        for s in self.Parent.SectorList:
-            if isinstance(s, FixedMarginBusiness):
-                # Another business that pays dividends has a DIV variable as well; it is not the recipient.
-                continue
-            if 'DIV' in s.EquationBlock.Equations:
-                Logger('Adding dividend flow', priority=5)
-                self.AddCashFlow('-DIV', 'PROF', 'Dividends paid', is_income=False)
-                if s.EquationBlock['DIV'].RHS() in ('', '0.0'):
-                    s.AddCashFlow('DIV', self.GetVariableName('PROF'), 'Dividends received', is_income=True)
-                else:
-                    # The recipient already receives the dividends of another business: still one DIV
-                    # flow in its ledger, which is the sum of the profits paid out.
-                    s.AddTermToEquation('DIV', self.GetVariableName('PROF'))
-                break
+        # Another business that pays dividends has a DIV variable as well; it is not the recipient.
+        recipients = [s for s in self.Parent.SectorList
+                      if not isinstance(s, FixedMarginBusiness) and 'DIV' in s.EquationBlock.Equations]
+        if len(recipients) > 1:
+            # (Paying the first one in the list would make the model depend on the order the sectors were created in.)
+            raise LogicError('More than one sector can receive the dividends of {0}: {1}'.format(
+                self.Code, ', '.join(sorted(s.Code for s in recipients))))
+        if len(recipients) == 1:
+            s = recipients[0]
+            Logger('Adding dividend flow', priority=5)
+            self.AddCashFlow('-DIV', 'PROF', 'Dividends paid', is_income=False)
+            if s.EquationBlock['DIV'].RHS() in ('', '0.0'):
+                s.AddCashFlow('DIV', self.GetVariableName('PROF'), 'Dividends received', is_income=True)
+            else:
+                # The recipient already receives the dividends of another business: still one DIV
+                # flow in its ledger, which is the sum of the profits paid out.
+                s.AddTermToEquation('DIV', self.GetVariableName('PROF'))
 
 
 class FixedMarginBusinessMultiOutput(Sector):
